@@ -1,7 +1,7 @@
 """C14 - numbers written on a schematic are the true circuit quantities."""
 from __future__ import annotations
 import cmath, copy, math, random
-from ..gen import drawings as D
+from ..gen import drawings as D, networks as G
 from .. import circdesc
 from ..oracles import netsolve
 from ..observe import call, raised
@@ -22,7 +22,7 @@ ASSUMPTIONS = [
     "labels hit by the two recorded C18 range-rule findings (infinity sign at precision < 3, suppressed small part) are set aside here, not re-reported",
     "the sinusoidal adapter is checked for consistency with the complex annotation (amplitude = magnitude of the displayed phasor), as DESIGN 5/C14 states",
 ]
-N_PROG = {'quick': 176, 'thorough': 3000}
+N_PROG = {'quick': 240, 'thorough': 3600}
 N_DECL = {'quick': 96, 'thorough': 1600}
 W_RES = 1e-3
 
@@ -46,11 +46,38 @@ class Proxy:
 
 def generate(tier, seed, shard, nshards):
     rng = random.Random(f'C14/{seed}/{shard}')
-    for _ in range(N_PROG[tier] // nshards):
+    for k in range(N_PROG[tier] // nshards):
+        if k % 5 == 4:
+            # almost resistive AC circuits: phase angles of a few hundredths to a few tenths of a degree (the smallest angles a
+            # polar label still has to show)
+            prog, family, w = small_angle_program(rng)
+            yield {'kind': 'drawing', 'program': prog, 'family': family, 'w': w, 'oseed': rng.getrandbits(32), 'stratum': 'almost-resistive', 'force_polar': True}
+            continue
         prog, family, w = C13.make_program(rng)
         yield {'kind': 'drawing', 'program': prog, 'family': family, 'w': w, 'oseed': rng.getrandbits(32)}
     for _ in range(N_DECL[tier] // nshards):
         yield {'kind': 'declarative', 'seed': rng.getrandbits(32)}
+
+
+def small_angle_program(rng):
+    """AC source - R - L loop (optionally a second resistor across the inductor or a small capacitor across the resistor) with
+    w L = u R, u in [2e-4, 1e-2]: every resistor voltage/current has a phase between about 0.01 and 0.6 degrees"""
+    w = G.value(rng, 1, 4)
+    R = G.value(rng, 0, 4)
+    u = 10 ** rng.uniform(-3.7, -2.0)
+    V = G.value(rng, 0, 2)
+    comps = [{'ctor': 'ac_voltage_source', 'id': 'Vs', 'nodes': ['N1', 'N0'], 'args': {'V': V, 'w': w, 'phi': 0.0}},
+             {'ctor': 'resistor', 'id': 'R1', 'nodes': ['N1', 'N2'], 'args': {'R': R}},
+             {'ctor': 'inductance', 'id': 'L1', 'nodes': ['N2', 'N0'], 'args': {'L': float(f'{u * R / w:.4g}')}}]
+    k = rng.randrange(3)
+    if k == 1:
+        comps.append({'ctor': 'resistor', 'id': 'R2', 'nodes': ['N2', 'N0'], 'args': {'R': G.value(rng, 0, 4)}})
+    elif k == 2:
+        comps.append({'ctor': 'capacitor', 'id': 'C1', 'nodes': ['N1', 'N2'], 'args': {'C': float(f'{10 ** rng.uniform(-3.7, -2.0) / (R * w):.4g}')}})
+    rng.shuffle(comps)
+    cd = {'components': comps + [{'ctor': 'ground', 'id': 'gnd', 'nodes': ['N0'], 'args': {}}]}
+    labels = {'N2': 'x'} if rng.random() < 0.5 else {}
+    return D.embed(rng, cd, labels=labels), 'ac', w
 
 
 def label_text(el):
@@ -146,6 +173,9 @@ def judge(case, ctx, prefix='C14'):
     else:
         p = rng.randint(1, 6)
         polar, deg = rng.random() < 0.5, rng.random() < 0.5
+        if case.get('force_polar'):
+            polar = True
+            ctx.count('almost_resistive_drawings')
         if family == 'complex':
             adapters.append(('complex', lambda: ds.complex_solution(d, precision=p, polar=polar, deg=deg), {'p': p, 'mode': 'complex', 'polar': polar, 'deg': deg, 'scale': 1 / math.sqrt(2)}))
         else:
